@@ -29,7 +29,7 @@ var (
 	envSeed    = getenvInt("VERIF_SEED", 1)
 	envShard   = int(getenvInt("VERIF_SHARD", 0))
 	envNShards = int(getenvInt("VERIF_NSHARDS", 1))
-	envOut     = getenv("VERIF_OUT", "")    // base path for stats / fail / crumb files
+	envOut     = getenv("VERIF_OUT", "")       // base path for stats / fail / crumb files
 	envScale   = getenvFloat("VERIF_SCALE", 1) // multiplies case counts (used by hand while developing)
 	hasAVX512  = cpuid.CPU.Has(cpuid.AVX512F)
 )
